@@ -100,7 +100,13 @@ PROPS = {
         "lean": ["Pdb.Props.C02", "Pdb.Props.C02Real", "Pdb.Props.C01b", "Pdb.Props.C02x", "Pdb.Proofs.Order", "Pdb.Props.C02RealWal"],
         "harness": [{"cmd": "p1", "quick": 250, "thorough": 15000},
                     {"cmd": "c02x", "quick": 450, "thorough": 4000, "timeout": 7200}],
-        "rule": P1_RULE,
+        "rule": P1_RULE + ("; at crash points the surviving log files (file number -> record ids) are reported to the file-level recovery model (p1r files; an inversion "
+                           "preamble makes ~20 % of the images have file-number order different from age order; half of the crash points with fully read files crash "
+                           "inside clean_logs). c02x: 2..4 columns of six kinds (hash, rc hash, btree, multitree append-only / rc / plain), transactions with at most one "
+                           "tree operation per multitree column + 0..3 key-value operations, crashes at stepping-API boundaries (unsynced tail cut) and INSIDE a step via the "
+                           "fault injector (process / enact / flush / clean with the fault index spread over all file operations), 0..2 faulted opens during recovery, full "
+                           "verification of the recovered state (reads, iteration, every tree node by path and by address, entry counts, forest dump checker t2rc), "
+                           "continuation on the recovered handle"),
         "assumptions": [A_HASH, A_COMPRESS, P2_GAP, "crash instants on the implementation: step boundaries of the stepping API with the unsynced log tail cut at a seeded length"],
     },
     "C03": {
